@@ -176,14 +176,14 @@ func (m *streamWorld) setup(ctx context.Context) error {
 		ic := databasev1.NewIndexRuleRegistryServiceClient(m.srv.conn)
 		for _, t := range []string{"a", "b"} {
 			if _, err = ic.Create(ctx, &databasev1.IndexRuleRegistryServiceCreateRequest{IndexRule: &databasev1.IndexRule{
-				Metadata: &commonv1.Metadata{Name: "idx-" + t, Group: m.group}, Tags: []string{t}, Type: typ,
+				Metadata: &commonv1.Metadata{Name: m.ruleName(t), Group: m.group}, Tags: []string{t}, Type: typ,
 			}}); err != nil {
 				return fmt.Errorf("create index rule: %w", err)
 			}
 		}
 		bc := databasev1.NewIndexRuleBindingRegistryServiceClient(m.srv.conn)
 		if _, err = bc.Create(ctx, &databasev1.IndexRuleBindingRegistryServiceCreateRequest{IndexRuleBinding: &databasev1.IndexRuleBinding{
-			Metadata: &commonv1.Metadata{Name: "bind", Group: m.group}, Rules: []string{"idx-a", "idx-b"},
+			Metadata: &commonv1.Metadata{Name: "bind", Group: m.group}, Rules: []string{m.ruleName("a"), m.ruleName("b")},
 			Subject: &databasev1.Subject{Catalog: commonv1.Catalog_CATALOG_STREAM, Name: streamName},
 			BeginAt: timestamppb.New(m.base.Add(-24 * time.Hour)), ExpireAt: timestamppb.New(m.base.Add(24 * 365 * time.Hour)),
 		}}); err != nil {
@@ -192,7 +192,7 @@ func (m *streamWorld) setup(ctx context.Context) error {
 		// criteria on unindexed tags are accepted by the stream engine, so they cannot tell whether the binding has
 		// reached the stream's schema; ordering by an index rule can: it is rejected ("index is not define for the tag")
 		// until the stream object - the one the write path takes its index rules from - knows the rule
-		probe.OrderBy = &modelv1.QueryOrder{IndexRuleName: "idx-b", Sort: modelv1.Sort_SORT_ASC}
+		probe.OrderBy = &modelv1.QueryOrder{IndexRuleName: m.ruleName("b"), Sort: modelv1.Sort_SORT_ASC}
 	}
 	deadline := time.Now().Add(20 * time.Second)
 	settled := 0
@@ -222,6 +222,14 @@ func (m *streamWorld) setup(ctx context.Context) error {
 		}
 		time.Sleep(20 * time.Millisecond)
 	}
+}
+
+// ruleName: VERIF_UNIQUE_RULES=1 gives every group its own index rule names (diagnosis of cross-group effects).
+func (m *streamWorld) ruleName(tag string) string {
+	if os.Getenv("VERIF_UNIQUE_RULES") != "" {
+		return "idx-" + tag + "-" + m.group
+	}
+	return "idx-" + tag
 }
 
 func (m *streamWorld) teardown(ctx context.Context) {
@@ -1139,12 +1147,22 @@ func (m *streamWorld) checkWindow(es []*streamv1.Element, q, ev map[string]any, 
 			return got[i] > got[j]
 		})
 		c1 := vlib.Map(vlib.Map(q, "crit"), "c1")
+		c2 := vlib.Map(vlib.Map(q, "crit"), "c2")
+		// is a condition of this query evaluated after the scan?  (no index rule / a skipping rule: every condition;
+		// inverted rules on a and b: conditions on the array tag, which no rule serves)
+		postScan := false
+		for _, cc := range []map[string]any{c1, c2} {
+			if vlib.Str(cc, "op") != "true" && (m.cfg.Index != "inverted" || vlib.Str(cc, "tag") == "arr") {
+				postScan = true
+			}
+		}
 		switch {
 		case !sorted:
 			kind = "result-not-sorted"
-		case by == "time" && vlib.Str(c1, "op") != "true" && len(got) < len(want) && isSubsequence(got, want):
-			// fewer rows than the window holds although more qualify, with a criteria that is (also) evaluated after the
-			// scan: the engine cuts the time-ordered scan at offset+limit BEFORE the post-scan tag filter rejects rows
+		case by == "time" && postScan && vlib.Int(q, "limit") > 0 && len(got) <= len(want):
+			// sorted, admissible rows, but not the window: fewer rows than the window holds although more qualify, or
+			// (when a later group of parts refills the page) a window that skips qualifying rows.  The engine cuts the
+			// time-ordered scan of a group of parts at offset+limit BEFORE the post-scan tag filter rejects rows.
 			kind = "limit-underfilled-by-post-scan-filter:" + m.cfg.Index
 		case len(got) != len(want):
 			kind = "window-size-differs"
@@ -1185,7 +1203,7 @@ func (m *streamWorld) checkIndexOrder(ctx context.Context, st vlib.State, ev, q 
 			want = keys[off:hi]
 		}
 		req := m.queryReq(st, q)
-		req.OrderBy = &modelv1.QueryOrder{IndexRuleName: "idx-" + tagName, Sort: modelv1.Sort_SORT_ASC}
+		req.OrderBy = &modelv1.QueryOrder{IndexRuleName: m.ruleName(tagName), Sort: modelv1.Sort_SORT_ASC}
 		if !asc {
 			req.OrderBy.Sort = modelv1.Sort_SORT_DESC
 		}
@@ -1202,7 +1220,37 @@ func (m *streamWorld) checkIndexOrder(ctx context.Context, st vlib.State, ev, q 
 		key := func(e *streamv1.Element) int {
 			return keyOf(int(streamFindTag(e, "rid").GetInt().GetValue()))
 		}
-		if !m.checkWindow(resp.Elements, q, ev, st, "idx-"+tagName, key, want, desc, fail) {
+		failD := fail
+		if os.Getenv("VERIF_IDX_DIAG") != "" {
+			// diagnosis: does the same query heal when asked again a little later?  and does an index-served condition find the rows?
+			failD = func(sig, format string, a ...any) {
+				healed := -1
+				for n, d := range []time.Duration{100 * time.Millisecond, 500 * time.Millisecond, 2 * time.Second} {
+					time.Sleep(d)
+					r2, e2 := m.query(ctx, req)
+					if e2 != nil {
+						continue
+					}
+					var got []int
+					for _, e := range r2.Elements {
+						got = append(got, key(e))
+					}
+					if fmt.Sprint(got) == fmt.Sprint(want) {
+						healed = n
+						break
+					}
+				}
+				creq := m.coverReq()
+				creq.Criteria = &modelv1.Criteria{Exp: &modelv1.Criteria_Condition{Condition: &modelv1.Condition{Name: tagName, Op: modelv1.Condition_BINARY_OP_GE, Value: map[string]*modelv1.TagValue{"a": tagInt(0), "b": tagStr("b00")}[tagName]}}}
+				cr, ce := m.query(ctx, creq)
+				n := -1
+				if ce == nil {
+					n = len(cr.Elements)
+				}
+				fail(sig, format+fmt.Sprintf(" [diag: healed at retry %d; index-served condition %s >= min finds %d elements, err %v]", healed, tagName, n, ce), a...)
+			}
+		}
+		if !m.checkWindow(resp.Elements, q, ev, st, "idx-"+tagName, key, want, desc, failD) {
 			return false
 		}
 	}
